@@ -233,7 +233,13 @@ pub enum Proto {
 /// Raw hyper client: connect, handshake, one POST with a two-chunk body, collect the response, then
 /// keep the connection open until `hold` resolves.
 pub async fn raw_client(client: DuplexClient, exec: Exec, proto: Proto, id: u32, bufsize: usize, obs: Obs, hold: Gate) {
-    let r = raw_client_inner(client, exec, proto, id, bufsize, obs.clone(), hold).await;
+    raw_client_over(client, None, exec, proto, id, bufsize, obs, hold).await
+}
+
+/// The same client; with a connector the stream is first wrapped in TLS (server name example.com).
+#[allow(clippy::too_many_arguments)]
+pub async fn raw_client_over(client: DuplexClient, tls: Option<tokio_rustls::TlsConnector>, exec: Exec, proto: Proto, id: u32, bufsize: usize, obs: Obs, hold: Gate) {
+    let r = raw_client_inner(client, tls, exec, proto, id, bufsize, obs.clone(), hold).await;
     let mut o = obs.lock().unwrap();
     if let Err(e) = r {
         o.responses.entry(id).or_insert(Err(e));
@@ -241,8 +247,19 @@ pub async fn raw_client(client: DuplexClient, exec: Exec, proto: Proto, id: u32,
     o.done_clients.push(id);
 }
 
-async fn raw_client_inner(client: DuplexClient, exec: Exec, proto: Proto, id: u32, bufsize: usize, obs: Obs, hold: Gate) -> Result<(), String> {
+pub trait AnyIo: tokio::io::AsyncRead + tokio::io::AsyncWrite + Unpin + Send {}
+impl<T: tokio::io::AsyncRead + tokio::io::AsyncWrite + Unpin + Send> AnyIo for T {}
+
+#[allow(clippy::too_many_arguments)]
+async fn raw_client_inner(client: DuplexClient, tls: Option<tokio_rustls::TlsConnector>, exec: Exec, proto: Proto, id: u32, bufsize: usize, obs: Obs, hold: Gate) -> Result<(), String> {
     let stream = client.connect(bufsize).await.map_err(|e| format!("connect: {e}"))?;
+    let stream: Box<dyn AnyIo> = match tls {
+        None => Box::new(stream),
+        Some(connector) => {
+            let name = rustls::pki_types::ServerName::try_from("example.com").unwrap();
+            Box::new(connector.connect(name, stream).await.map_err(|e| format!("tls: {e}"))?)
+        }
+    };
     let req = http::Request::builder()
         .method("POST")
         .uri(format!("/r{id}?q={id}"))
